@@ -32,6 +32,9 @@ type selfTestResult struct {
 	Detail  string   `json:"detail,omitempty"`
 }
 
+// selfTestFailures: the checker itself is broken on this tree (exit 2, no VIOLATION line).
+var selfTestFailures []string
+
 var ruleLine = regexp.MustCompile(`(?m)^\S*: ([A-Z0-9@-]+) \[`)
 
 func (c *Ctx) selfTest(id string) {
@@ -75,8 +78,7 @@ func (c *Ctx) selfTest(id string) {
 		case "skipped":
 			skipped++
 		case "silent":
-			c.rep.add(Obligation{Rule: "SELFTEST", Func: "-", Construct: "seeded change " + r.Seed + " is reported", Status: stViolation, Kind: "undecided",
-				Detail: "the stored property-breaking change " + r.Seed + " applies to the current tree but the check did not report it (" + r.Detail + "): the checker has lost its power on this tree"})
+			selfTestFailures = append(selfTestFailures, fmt.Sprintf("SELFTEST-FAIL property=%s seed=%s: the stored property-breaking change applies to the current tree but the check did not report it (%s)", id, r.Seed, r.Detail))
 		}
 	}
 	for _, r := range results {
@@ -134,4 +136,42 @@ func runSeed(id string, sm seedMeta) selfTestResult {
 	res.Outcome = "silent"
 	res.Detail = fmt.Sprintf("expected one of %v, got %v", sm.ReportedBy[id], all)
 	return res
+}
+
+// crossReference runs the generic analysers that are installed in the image and records what
+// they say in the evidence.  They never decide anything (DESIGN.md §2).
+func (c *Ctx) crossReference() {
+	if os.Getenv("PSA_SELFTEST_CHILD") != "" {
+		return
+	}
+	type xref struct {
+		Tool        string   `json:"tool"`
+		Diagnostics int      `json:"diagnostics"`
+		Sample      []string `json:"sample,omitempty"`
+		Error       string   `json:"error,omitempty"`
+	}
+	var out []xref
+	for _, t := range [][]string{{"errcheck", "-blank", "./..."}, {"staticcheck", "./..."}} {
+		x := xref{Tool: strings.Join(t, " ")}
+		if _, err := exec.LookPath(t[0]); err != nil {
+			x.Error = "not installed"
+			out = append(out, x)
+			continue
+		}
+		cmd := exec.Command(t[0], t[1:]...)
+		cmd.Dir = repoDir
+		cmd.Env = append(os.Environ(), "GOFLAGS=-mod=mod", "GOPROXY=off", "GOSUMDB=off", "GOTOOLCHAIN=local", "GOWORK=off")
+		data, _ := cmd.CombinedOutput()
+		for _, l := range strings.Split(strings.TrimSpace(string(data)), "\n") {
+			if l == "" || strings.Contains(l, "_test.go") {
+				continue
+			}
+			x.Diagnostics++
+			if len(x.Sample) < 8 {
+				x.Sample = append(x.Sample, l)
+			}
+		}
+		out = append(out, x)
+	}
+	c.rep.Extra["cross_reference_not_deciding"] = out
 }
